@@ -546,7 +546,16 @@ pub fn tracer_main(args: &[String]) -> i32 {
         };
         let (buf_lower, buf_upper) = (shm(CAP), shm(CAP));
         let (mut len_lower, mut len_upper) = (0usize, 0usize);
+        let any_upper = variants.iter().any(|v| (128..1000).contains(v));
         for (n, (v, w)) in wires.iter().enumerate() {
+            if n == 2 && !any_upper {
+                // no upper-case variant in this job: its reference is not needed (the slot repeats the lower one)
+                codes.push(codes[0]);
+                let mut r0 = results[0];
+                r0.variant = *v;
+                results.push(r0);
+                continue;
+            }
             let (code, steps, hash, first, rip_ref, rip_got) = unsafe {
                 if n == 0 {
                     let r = trace_one_tf(w, &cfg, &prov, true, buf_lower, CAP);
